@@ -8,6 +8,8 @@
 //	select with >=2 comm cases and no default
 //	                             -> switch verifPick(site,n) { case r: nested priority selects }
 //	var p = sync.Pool{...}       -> var p = verifPool{...}
+//	sync.Mutex / sync.RWMutex / sync.Once (as types)
+//	                             -> verifMutex / verifRWMutex / verifOnce
 //	net.Dial / net.DialTimeout / tls.Dial / net.ListenUDP / net.ResolveIPAddr
 //	                             -> verifDial / verifDialTimeout / verifTLSDial / ...
 //
@@ -123,6 +125,24 @@ func (c *fileCtx) passA() {
 			}
 		}
 	}
+	// locks of the code under test: sync.Mutex / sync.RWMutex / sync.Once anywhere a type can
+	// stand (fields, variables, new(), composite literals) become the simulator-visible types
+	// of the hooks file. A goroutine that waits for such a lock is durably blocked (a channel),
+	// so a holder parked at an interception point no longer stalls the whole simulation.
+	ast.Inspect(c.f, func(n ast.Node) bool {
+		se, ok := n.(*ast.SelectorExpr)
+		if !ok {
+			return true
+		}
+		for _, nm := range []string{"Mutex", "RWMutex", "Once"} {
+			if isSel(se, "sync", nm) {
+				eds = append(eds, edit{c.off(se.Pos()), c.off(se.End()), "verif" + nm})
+				keep["sync.Mutex{}"] = true
+				c.stats["lock"]++
+			}
+		}
+		return true
+	})
 	for _, d := range c.f.Decls {
 		fd, ok := d.(*ast.FuncDecl)
 		if !ok || fd.Body == nil {
